@@ -146,7 +146,7 @@ struct Carry {
 void begin(const Config &c, const Carry *carry = nullptr);
 void end();
 void saveCarry(Carry &out);      // after end(): the state begin() can continue from
-struct Counters { uint64_t allocs = 0, fresh = 0, recycled = 0, bytes = 0, overflowToMalloc = 0, slot = 0, scribbled = 0, carried = 0; };
+struct Counters { uint64_t allocs = 0, fresh = 0, recycled = 0, bytes = 0, overflowToMalloc = 0, slot = 0, scribbled = 0, carried = 0, continuedBehindLeak = 0; };
 extern Counters counters;
 bool available();   // false in sanitizer builds (arena disabled)
 } // namespace heap
